@@ -114,6 +114,12 @@ def check_program(col, pp, cfg, prog):
         if where == 'bake':
             done = sum(1 for st_ in rr.recipe.steps if len(st_.to) > 1)
             step_kind = step_variant(steps[done]) if done < len(steps) else 'end'
+        if where == 'bake':
+            # had the recorded states already diverged at an earlier step?  then that step is the root cause
+            div = first_divergence(world, pp, rr, eager, prog)
+            if div != 'unrecorded':
+                col.report(f"result-differs/first-divergence={div}", {'exc': repr(exc)[:200], 'failing_step': step_kind}, case)
+                return
         if where == 'bake' and step_kind == 'fill_to-slice':
             # one root cause with the 'differs' manifestation: bake fills the whole plate before the slice
             col.report("result-differs/first-divergence=fill_to-slice", {'exc': repr(exc)[:200]}, case)
